@@ -271,7 +271,7 @@ func NewMsgCancelUnbondingDelegation(args []interface{}, denom string) (*staking
 	}
 
 	creationHeight, ok := args[3].(*big.Int)
-	if !ok {
+	if !ok || !creationHeight.IsInt64() {
 		return nil, common.Address{}, fmt.Errorf("invalid creation height")
 	}
 
